@@ -200,6 +200,7 @@ type c01state struct {
 	epochKey     string
 	maxStep      int
 	lastKey      string
+	epochImg     string // image of the workload template when the current release epoch began
 	rebase       bool // a new epoch began: its first knob write (Initialize) may lower the setting left by the previous one
 }
 
@@ -223,6 +224,7 @@ func (s *Set) c01(w *simapi.Write, v *simapi.View) {
 				st.rebase = true // another revision is being released (supersession), not merely another rollout-id
 			}
 			st.lastKey = ek
+			st.epochImg = workloadImage(wl)
 		}
 		st.epochKey, st.maxStep = ek, 0
 	}
@@ -237,6 +239,17 @@ func (s *Set) c01(w *simapi.Write, v *simapi.View) {
 		return
 	}
 	s.count("c01_knob_writes_seen", 1)
+	// a revision the Rollout has not started to release (published while another release is running or being cleaned
+	// up) is held back by the webhook; until the Rollout takes it up no controller may lift that hold
+	// (blue-green refuses a second revision outright and its batches are governed by maxSurge, not by the hold)
+	if w.Key == s.S.WorkloadKey() && w.Before != nil && w.After != nil && st.epochImg != "" && s.S.Style != "bluegreen" {
+		img := workloadImage(w.After)
+		if img != st.epochImg && img != s.stableImg && held(w.Before, s.S.Kind) && !held(w.After, s.S.Kind) && s.phase == "Progressing" {
+			s.count("c01_hold_lifts_checked", 1)
+			s.violate("C01", fmt.Sprintf("c01:hold-lifted-for-unreleased-revision:%s/%s", s.S.Kind, s.S.Style), fmt.Sprintf("%s lifted the hold on %s (%s) while its template is %s, a revision the Rollout has not started to release (the release in progress / being cleaned up is for %s): every pod may move to it at once",
+				w.Actor, w.Key, holdStr(w.Before, s.S.Kind), img, st.epochImg), w, nil)
+		}
+	}
 	if s.st10.superseding && s.inRolling() {
 		// between two releases (v2 abandoned for v3): the old BatchRelease is being removed; nothing may raise the setting
 		// beyond what the abandoned step had reached
@@ -283,6 +296,24 @@ func (s *Set) c01(w *simapi.Write, v *simapi.View) {
 		s.violate("C01", fmt.Sprintf("c01:knob-moved-back:%s/%s", s.S.Kind, s.S.Style), fmt.Sprintf("%s lowered the new-revision target of %s from %d to %d pods (replicas %d) while the release moves forward (step %d)",
 			w.Actor, w.Key, st.lastExp, exp, R, s.step), w, nil)
 	}
+}
+
+// held reports whether the workload is held back from rolling (the state the webhook puts it in on a template change).
+func held(wl simapi.Obj, kind string) bool {
+	switch kind {
+	case "deployment":
+		return simapi.Bool(wl, "spec.paused")
+	case "cloneset":
+		return simapi.Bool(wl, "spec.updateStrategy.paused") || fmt.Sprint(simapi.Path(wl, "spec.updateStrategy.partition")) == "100%"
+	}
+	return false
+}
+
+func holdStr(wl simapi.Obj, kind string) string {
+	if kind == "deployment" {
+		return fmt.Sprintf("paused=%v", simapi.Bool(wl, "spec.paused"))
+	}
+	return fmt.Sprintf("partition=%v paused=%v", simapi.Path(wl, "spec.updateStrategy.partition"), simapi.Bool(wl, "spec.updateStrategy.paused"))
 }
 
 // ---- C11: BatchRelease status means what it says -----------------------------------------------------------------
